@@ -56,6 +56,12 @@ class Interner(object):
             self.values[self.d[k]] = value
         return self.d[k]
 
+    def semtok(self, code):
+        k = "sem:" + json.dumps(cpy.sem_fp(code), sort_keys=True)
+        if k not in self.d:
+            self.d[k] = len(self.d)
+        return self.d[k]
+
     def key(self, value):
         k = "key:" + json.dumps(cpy.keyfp(value), sort_keys=True)
         if k not in self.d:
@@ -109,6 +115,8 @@ def cpy_reading(code, it):
     r["cellvars"] = [it.tok(x) for x in code.co_cellvars]
     r["freevars"] = [it.tok(x) for x in code.co_freevars]
     r["consts"] = [it.tok(x) for x in code.co_consts]
+    # the same with nested code objects identified by meaning instead of bits (C05/C06)
+    r["consts_sem"] = [it.semtok(x) if isinstance(x, types.CodeType) else it.tok(x) for x in code.co_consts]
     r["name_keys"] = [it.key(x) for x in code.co_names]
     r["varname_keys"] = [it.key(x) for x in code.co_varnames]
     r["cellvar_keys"] = [it.key(x) for x in code.co_cellvars]
